@@ -19,7 +19,7 @@ class Prop(PropBase):
     REQUIRED = ["Tpp.Props.C01." + n for n in ("C01_rendering", "C01_rendering_fresh", "C01_step_write", "C01_wellformed",
                                                 "C01_rendering_any_size", "C01_rendering_readme")] + \
                ["Tpp.agree_run", "Tpp.run_log", "Tpp.agreeRend_run", "Tpp.feed_moveCursor_any", "Tpp.sgr_diff", "Tpp.diffParams_ne_nil", "Tpp.feed_changeCharset", "Tpp.feed_text"]
-    RULE = ("exhaustive: every ordered pair (previous attribute, next attribute) over 24 effect combinations x "
+    RULE = ("exhaustive short histories: EVERY sequence of up to 3 (thorough: 4) operations over an 18-operation alphabet on a 3x2 terminal (termgen.short_histories); exhaustive: every ordered pair (previous attribute, next attribute) over 24 effect combinations x "
             "foreground x background alphabets (3 colours quick, 7 thorough), from a known and from an unknown rendition; "
             "all 19x19 ordered charset pairs x both unicode_in_all_charsets values; random histories of element/string "
             "writes interleaved with erases, cursor moves, save/restore, modes (graphic glyphs incl. UTF-8 to U+FFFF, all "
@@ -66,4 +66,7 @@ class Prop(PropBase):
         for i in range(500 if tier == "quick" else 10000):
             line = tg.history(rng, rng.choice([1, 3, 8, 20]), graphic=False)
             cs.append(Case(line, tag="history-any-bytes", oracle=False))
+        shc = ["%d %d %d %d 7 4" % (wv, e, r, z) for wv in range(3) for e in range(3) for r in range(6) for z in range(4)]
+        for line, cf in tg.short_histories(3 if tier == "quick" else 4, shc):
+            cs.append(Case(line, sweep="short-histories", cfgs=cf))
         return cs
